@@ -197,6 +197,13 @@ struct Tx {
     op: &'static str,
 }
 
+impl Tx {
+    /// Fee payer / authority of the transaction (first signer).
+    fn signer(&self) -> Option<Pubkey> {
+        self.ixs.first().and_then(|ix| ix.accounts.iter().find(|a| a.is_signer).map(|a| a.pubkey))
+    }
+}
+
 struct Sim<'a> {
     cfg: &'a Cfg,
     w: World,
@@ -207,7 +214,6 @@ struct Sim<'a> {
     other_keeper: Pubkey,
     m: Model,
     pending: Vec<(usize, Tx, &'static str)>,
-    last_delay: Option<u32>,
 }
 
 fn domain_flag(d: u8) -> Option<gmsol_store::states::feature::DomainDisabledFlag> {
@@ -285,7 +291,7 @@ impl<'a> Sim<'a> {
             m.factors.insert(k.to_string(), *store.get_factor(k).expect("factor"));
         }
         m.holding = *store.get_address("holding").expect("holding");
-        Sim { cfg, w, p, principals, n_actors, other_keeper: d.keeper, m, pending: vec![], last_delay: None }
+        Sim { cfg, w, p, principals, n_actors, other_keeper: d.keeper, m, pending: vec![] }
     }
 
     fn actor(&self, i: u8) -> Pubkey {
@@ -629,13 +635,6 @@ impl<'a> Sim<'a> {
         if tx.opts.fail_cpi_at.is_some() && !out.ok {
             obs.fault("cpi_failure_injected");
         }
-        if out.ok {
-            self.on_ok(tx, &out, obs);
-            if obs.should_stop() {
-                return;
-            }
-            self.sync(matches!(tx.intent, Intent::Execute { .. }), obs);
-        }
         // The delay can only increase.
         let delay_after = self.read_delay();
         if let (Some(b), a) = (delay_before, delay_after) {
@@ -644,14 +643,36 @@ impl<'a> Sim<'a> {
                 P,
                 "delay_monotone",
                 || format!("op={}", tx.op),
-                || format!("delay before {b} after {a:?}"),
+                || format!("configured delay went from {b} to {a:?}"),
             );
+            if obs.should_stop() {
+                return;
+            }
         }
-        self.last_delay = delay_after;
+        if out.ok {
+            self.on_ok(tx, &out, obs);
+            if obs.should_stop() {
+                return;
+            }
+            self.sync(matches!(tx.intent, Intent::Execute { .. }), obs);
+        }
     }
 
     fn on_ok(&mut self, tx: &Tx, out: &TxOutcome, obs: &mut Obs) {
         let now = self.now();
+        // Informational only (authorisation of keeper/admin operations is not part of C36): these stay at zero.
+        if let Some(signer) = tx.signer() {
+            let need = match tx.intent {
+                Intent::Create { .. } | Intent::Execute { .. } => Some("TIMELOCK_KEEPER"),
+                Intent::Cancel { .. } | Intent::IncreaseDelay { .. } | Intent::InitConfig { .. } => Some("TIMELOCK_ADMIN"),
+                _ => None,
+            };
+            if let Some(r) = need {
+                if !self.m.has(&signer, r) {
+                    obs.probe(&format!("unauthorised_{}_succeeded", tx.op));
+                }
+            }
+        }
         match &tx.intent {
             Intent::InitExecutor => {}
             Intent::StoreTransfer { to } => self.m.next_authority = *to,
@@ -915,8 +936,10 @@ impl<'a> Sim<'a> {
         }
         if bad.is_none() {
             for (k, b) in &self.m.bufs {
+                // (an executed / cancelled buffer that still exists is not demanded to be gone: it must only never
+                // run again, which `exec_once` checks)
                 let exists = self.w.get(k).map_or(false, |a| a.owner == tl::ID && !a.data.is_empty());
-                if exists != b.live {
+                if b.live && !exists {
                     bad = Some(("buffer_liveness".into(), format!("{k}: chain exists={exists}, model live={} state {:?}", b.live, b.state)));
                 }
             }
